@@ -11,6 +11,8 @@
 #include "epoch.h"
 #include "garbage_collection.h"
 
+#include "verif_hook.h"
+
 namespace yakushima {
 
 class alignas(CACHE_LINE_SIZE) thread_info {
@@ -21,9 +23,11 @@ public:
      * @return false fail.
      */
     bool gain_the_right() {
+        YAKUSHIMA_VERIF_HOOK(YAKUSHIMA_VERIF_LOAD, &running_);
         bool expected(running_.load(std::memory_order_acquire));
         for (;;) {
             if (expected) { return false; }
+            YAKUSHIMA_VERIF_HOOK(YAKUSHIMA_VERIF_STORE, &running_);
             if (running_.compare_exchange_weak(expected, true,
                                                std::memory_order_acq_rel,
                                                std::memory_order_acquire)) {
@@ -33,20 +37,24 @@ public:
     }
 
     [[nodiscard]] Epoch get_begin_epoch() const {
+        YAKUSHIMA_VERIF_HOOK(YAKUSHIMA_VERIF_LOAD, &begin_epoch_);
         return begin_epoch_.load(std::memory_order_acquire);
     }
 
     [[nodiscard]] garbage_collection& get_gc_info() { return gc_info_; }
 
     [[nodiscard]] bool get_running() const {
+        YAKUSHIMA_VERIF_HOOK(YAKUSHIMA_VERIF_LOAD, &running_);
         return running_.load(std::memory_order_acquire);
     }
 
     void set_begin_epoch(const Epoch epoch) {
+        YAKUSHIMA_VERIF_HOOK(YAKUSHIMA_VERIF_STORE, &begin_epoch_);
         begin_epoch_.store(epoch, std::memory_order_relaxed);
     }
 
     void set_running(const bool tf) {
+        YAKUSHIMA_VERIF_HOOK(YAKUSHIMA_VERIF_STORE, &running_);
         running_.store(tf, std::memory_order_relaxed);
     }
 
